@@ -193,6 +193,12 @@ func Build(s *Spec) (*Fixture, error) {
 		if err != nil {
 			return nil, fmt.Errorf("NewPrivateKey: %v", err)
 		}
+		if int(b[len(b)-1])/4%2 == 1 {
+			// the other constructor of the same key (see `route` below)
+			if k2, err := secec.NewPrivateKeyFromScalar(mustScalarBytes(b)); err == nil {
+				k = k2
+			}
+		}
 		fx.privs = append(fx.privs, k)
 		// How an object came to be is a dimension of its own: the same
 		// public key parsed from bytes, handed out by a private key object
@@ -225,6 +231,11 @@ func Build(s *Spec) (*Fixture, error) {
 		sk, err := bitcoin.NewSchnorrPrivateKey(b)
 		if err != nil {
 			return nil, fmt.Errorf("NewSchnorrPrivateKey: %v", err)
+		}
+		if int(b[len(b)-1])/8%2 == 1 {
+			if own, err := secec.NewPrivateKey(b); err == nil {
+				sk = bitcoin.NewSchnorrPrivateKeyFromECDSA(own)
+			}
 		}
 		fx.sprivs = append(fx.sprivs, sk)
 		spk, err := bitcoin.NewSchnorrPublicKey(ref.I2OSP32(fx.modelQ[i].X))
